@@ -855,8 +855,9 @@ func check(prop, tier string, onlyPart string) int {
 			if len(rf.Trace) > 400 {
 				rf.Trace = rf.Trace[len(rf.Trace)-400:]
 			}
-			os.MkdirAll(filepath.Join(verifDir, "replays"), 0o755)
-			path := filepath.Join(verifDir, "replays", fmt.Sprintf("%s-%s.json", prop, hashKey(k)))
+			rdir := envOr("VERIF_REPLAY_DIR", filepath.Join(verifDir, "replays"))
+			os.MkdirAll(rdir, 0o755)
+			path := filepath.Join(rdir, fmt.Sprintf("%s-%s.json", prop, hashKey(k)))
 			b, _ := json.MarshalIndent(rf, "", " ")
 			os.WriteFile(path, b, 0o644)
 			outLines = append(outLines, fmt.Sprintf("  class: %s\n  detail: %s\n  occurrences in this batch: %d, first seed %d, replay has %d choices", k, firstLines(fr.Detail, 6), len(rs), r.Seed, len(rf.Choices)))
